@@ -713,13 +713,14 @@ impl<T: GseDecapMemory, C: CrcCalculator, MHEM: MandatoryHeaderExtensionManager>
         let mut offset = FIXED_HEADER_LEN;
         let buffer_len = buffer.len();
 
-        let frag_id = buffer[offset];
-        offset += FRAG_ID_LEN;
-
         if gse_len <= FRAG_ID_LEN {
             self.last_label = None;
             return Err((DecapError::ErrorGseLength, buffer_len));
         }
+
+        let frag_id = buffer[offset];
+        offset += FRAG_ID_LEN;
+
         let calculed_pdu_len = gse_len - FRAG_ID_LEN;
 
         let (mut decap_context, mut pdu) = match self.memory.take_frag(frag_id) {
@@ -762,13 +763,14 @@ impl<T: GseDecapMemory, C: CrcCalculator, MHEM: MandatoryHeaderExtensionManager>
     ) -> Result<(DecapStatus, usize), (DecapError, usize)> {
         let mut offset = FIXED_HEADER_LEN;
         let buffer_len = buffer.len();
-        let frag_id = buffer[offset];
-        offset += FRAG_ID_LEN;
-
         if gse_len < FRAG_ID_LEN + CRC_LEN {
             self.last_label = None;
             return Err((DecapError::ErrorSizeBuffer, buffer_len));
         }
+
+        let frag_id = buffer[offset];
+        offset += FRAG_ID_LEN;
+
         let calculed_pdu_len = gse_len - (FRAG_ID_LEN + CRC_LEN);
 
         let (decap_context, mut pdu) = match self.memory.take_frag(frag_id) {
